@@ -29,6 +29,9 @@ def main():
 
     proto.write(json.dumps({"ready": True, "pid": os.getpid(), "source": env.source_hash(),
                             "jit": env.jit_enabled(), "hashseed": os.environ.get("PYTHONHASHSEED")}) + "\n")
+    import collections
+
+    recent = collections.deque(maxlen=3)  # the traces this process executed before the current one
     for line in sys.stdin:
         line = line.strip()
         if not line:
@@ -56,6 +59,10 @@ def main():
                 out["trace_digest"] = registry.trace_digest(trace)
                 if msg.get("want_trace") or rep["violations"]:
                     out["trace"] = trace
+                if rep["violations"]:
+                    # in case the violation needs state left behind by earlier runs of this process
+                    out["prev_traces"] = list(recent)
+                recent.append(trace)
             elif cmd == "enum":
                 rs = run_seed(msg["seed"], msg["prop"] + "-enum", msg["index"])
                 out["report"] = sim.enum_run(rs, jit=env.jit_enabled(), max_cases=int(msg.get("max_cases", 600)))
